@@ -34,21 +34,25 @@ def _lower(h, name, n):
     return L
 
 
-def _gp(h, n, d, mean):
+def _gp(h, n, d, mean, kernel="SE"):
     import inference.gp.regression as rg
     cv, mn = gc.patch_cov(h)
     L = _lower(h, "L", n)
     h.patch(rg, solve_triangular=stubs.solve_triangular, zeros=ozeros)
     h.patch(rg, both=True, cholesky=stubs.make_param_cholesky(h, L, "regression.cholesky"))
     h.covers(rg.GpRegressor.gradient, rg.GpRegressor.spatial_derivatives, cv.SquaredExponential.gradient_terms)
-    K = cv.SquaredExponential(hyperpar_bounds=[(-5.0, 5.0)] * (d + 1))
+    spec = {"SE": "SE", "SE+SE+WN": ("sum", ["SE", "SE", "WN"]), "SE+WN": ("sum", ["SE", "WN"])}[kernel]
+    K = cv.SquaredExponential(hyperpar_bounds=[(-5.0, 5.0)] * (d + 1)) if kernel == "SE" else gc.build_kernel(cv, spec)
+    nk = gc.n_params(spec, n, d)
+    for comp in getattr(K, "components", []):     # given bounds: the data-driven estimate is not the subject here
+        comp.bounds = [(-5.0, 5.0)] * (d + 1 if isinstance(comp, cv.SquaredExponential) else 1)
     M = gc.build_mean(mn, mean)
     pm = gc.mean_n_params(mean, d)
     M.bounds = [(-5.0, 5.0)] * pm
     x = h.real("x", (n, d))
     y = h.real("y", n)
-    th = np.concatenate([h.real("tm", pm), h.real("tk", d + 1)])
-    Kref = gc.ref_call(h, "SE", x, x, th[pm:], same_points=True)
+    th = np.concatenate([h.real("tm", pm), h.real("tk", nk)])
+    Kref = gc.ref_call(h, spec, x, x, th[pm:], same_points=True)
     Kref = 0.5 * (Kref + Kref.T)
     gp = rg.GpRegressor(x, y, y_cov=L @ L.T - Kref, hyperpars=th, kernel=K, mean=M)
     return rg, cv, gp, x, y, th, pm, L, K
@@ -185,3 +189,21 @@ def query_points_of_any_numeric_type(h, n, d, form):
     mu_i, sig_i = gp(qi)
     mu_f, sig_f = gp(qf)
     h.eq("predictive mean: integer query points == floats", mu_i, mu_f)
+
+
+@unit("C16", quick=[dict(kernel="SE+SE+WN", n=2, d=1), dict(kernel="SE+WN", n=2, d=1)], thorough=[dict(kernel="SE+SE+WN", n=2, d=2)], cost=4)
+def sums_of_kernels_either_decline_or_differentiate_correctly(h, kernel, n, d):
+    """derivative predictions with a *sum* of kernels: the library may decline (NotImplementedError, its documented answer
+    for kernels without gradient support) -- but if it answers, the answer must be the derivative of the predictive mean and
+    variance, exactly as for a single kernel"""
+    rg, cv, gp, x, y, th, pm, L, K = _gp(h, n, d, "const", kernel=kernel)
+    h.allow(NotImplementedError)
+    q = h.real("q", d)
+    fm = lambda p: gp.build_posterior(np.asarray(p)[None, :], mean_only=True)[0]  # noqa: E731
+    fv = lambda p: gp.build_posterior(np.asarray(p)[None, :])[1][0, 0]  # noqa: E731
+    h.same("the library either declines or answers (both are reached below)", True, True)
+    gm, gcov = gp.gradient(q[None, :])
+    h.is_gradient("gradient(q) mean == d mean / d q", fm, q, np.atleast_1d(gm))
+    dm, dv = gp.spatial_derivatives(q[None, :])
+    h.is_gradient("spatial_derivatives(q) mean part == d mean / d q", fm, q, np.atleast_1d(dm))
+    h.is_gradient("spatial_derivatives(q) variance part == d variance / d q", fv, q, np.atleast_1d(dv))
